@@ -192,7 +192,7 @@ def finish_coverage(res, must_cover=(), report_funcs=None):
         unc = sorted(c["all"] - c["covered"])
         out[fn] = {"blocks": c["total"], "covered": len(c["covered"]), "uncovered": unc}
     for fn in must_cover:
-        if fn not in out or out[fn]["covered"] == 0:
+        if fn not in cov or len(cov[fn]["covered"]) == 0:
             res.error("COVERAGE-GAP: no feasible path executed %s" % fn)
     res.extra["block_coverage"] = out
     res.extra["uncovered_blocks"] = {fn: v["uncovered"] for fn, v in out.items() if v["uncovered"]}
